@@ -97,6 +97,32 @@ def _slug(label):
     return ''.join(ch if ch.isalnum() else '_' for ch in label).strip('_')
 
 
+def make_inputs_b(c, family, shape, inp):
+    """A second, independent set of HORIZONTAL inputs for the same shape (the node positions an
+    existing geometry is moved to); layers and top elevation are those of `inp`."""
+    o = [c.real('oxb'), c.real('oyb'), inp['origin'][2]]
+    if family == 'rect':
+        nx, ny, nz = shape
+        return dict(dx=[_pos(c, 'dxb%d' % i) for i in range(nx)], dy=[_pos(c, 'dyb%d' % i) for i in range(ny)],
+                    dz=inp['dz'], origin=o)
+    if family == 'quadfam':
+        a, b = _pos(c, 'a_b'), _pos(c, 'b_b')
+        c.add(z3.And(a.e + b.e > 1, a.e < 2, a.e < b.e + 1))
+        return dict(a=a, b=b, dz=inp['dz'], origin=o)
+    return dict(sx=_pos(c, 'sxb'), sy=_pos(c, 'syb'), k=inp['k'], t=inp['t'], dz=inp['dz'], origin=o)
+
+
+def variant_of(rename, raw_surface, preconvert, move, edits):
+    """Tag of the non-default ways a geometry reaches its final state (part of failure keys)."""
+    v = []
+    if rename: v.append('renamed-columns')
+    if raw_surface: v.append('surface-assigned-no-refresh')
+    if move: v.append('nodes-moved')
+    for e in edits or (): v.append('after-' + e[0])
+    if preconvert: v.append('second-conversion')
+    return '+'.join(v)
+
+
 def class_constraint(s, tops, bots, cls):
     """Arrangement classes of a surface s (nz layers): 0 = above the top;
     then going down: 1 = at top of layer 1, 2 = inside layer 1, 3 = at top of
@@ -112,14 +138,22 @@ def n_classes(nz): return 2 * nz + 1
 
 
 def task_fromgeo(family, shape, atm, conv, order, angle, use_map, surf_cols=None, rot=None,
-                 translate=False, fix=None, mixmode='full', profile=False, built_atm=None):
+                 translate=False, fix=None, mixmode='full', profile=False, built_atm=None,
+                 rename=None, raw_surface=False, preconvert=False, move=False, edits=()):
     """One shape/configuration; all values symbolic.
     family 'rect': shape = (nx, ny, nz); 'mix5' / 'triquad' / 'quadfam': shape = nz.
     surf_cols: columns with a free symbolic surface (None = all); the others
     keep the default surface (top of the geometry).
     fix: optional {column index: class index} restricting a column's surface to
     one arrangement class (only used to split a big task over processes; the
-    union of the sub-tasks is the unrestricted task)."""
+    union of the sub-tasks is the unrestricted task).
+    Round 4 - the geometry OBJECT reaches its final state by documented in-place operations:
+    rename {column index: name}: real rename_column() after construction;
+    raw_surface: surfaces are only assigned (`col.surface = s`), nothing else is called;
+    preconvert: the geometry is converted once before move / edits (same t2grid object re-used);
+    move: every node is moved to the positions of a second symbolic input set, then centre =
+    centroid and get_area() as mulgrid.optimize() does;
+    edits: [('delete_column', k) | ('delete_layer_bottom',) | ('split_column', k, p)] by the real methods."""
     ld = _load()
     M, T = ld.mulgrids, ld.t2grids
     failures, samples, distinct = [], [], set()
@@ -128,7 +162,11 @@ def task_fromgeo(family, shape, atm, conv, order, angle, use_map, surf_cols=None
     state = dict(reached=0)
     expect_oracle_error = (order == 'dmplex' and family == 'mix5')
     cfg = dict(family=family, shape=shape, atm=atm, convention=conv, order=order, angle=angle,
-               use_map=use_map, rot=rot, translate=translate, mixmode=mixmode, built_atm=built_atm)
+               use_map=use_map, rot=rot, translate=translate, mixmode=mixmode, built_atm=built_atm,
+               rename=rename, raw_surface=raw_surface, preconvert=preconvert, move=move, edits=[list(e) for e in edits])
+    variant = variant_of(rename, raw_surface, preconvert, move, edits)
+    n_bottom_deleted = len([e for e in edits if e[0] == 'delete_layer_bottom'])
+    assert not (move and (rot or translate))
 
     def h(c):
         if len(failures) >= MAX_FAILURES_PER_TASK: return 'not explored: the task already has counterexamples'
@@ -142,7 +180,7 @@ def task_fromgeo(family, shape, atm, conv, order, angle, use_map, surf_cols=None
         surfaces = [None] * ncol
         for k in which:
             s = c.real('s%d' % k)
-            c.add(s.e > GS.zterm(bots[-1]))          # the bottom layer is never empty
+            c.add(s.e > GS.zterm(bots[-1 - n_bottom_deleted]))          # the bottom layer (of the final geometry) is never empty
             if fix and k in fix: c.add(class_constraint(s, tops, bots, fix[k]))
             surfaces[k] = s
         pivot = shift = None
@@ -151,6 +189,7 @@ def task_fromgeo(family, shape, atm, conv, order, angle, use_map, surf_cols=None
             assert abs(GB.ROT_DEG[rot] - angle) > 1e-6, 'rotation angle must differ from the permeability angle (exact-trig stub)'
             pivot = (c.real('px'), c.real('py'))
         if translate: shift = [c.real('tx'), c.real('ty'), c.real('tz')]
+        inp_b = make_inputs_b(c, family, shape, inp) if move else None
 
         def record(label, what, model):
             def val(x):
@@ -158,19 +197,24 @@ def task_fromgeo(family, shape, atm, conv, order, angle, use_map, surf_cols=None
                 return GS.model_num(model, x)
             data = dict(cfg, label=label,
                         inputs={k: ([val(x) for x in v] if isinstance(v, list) else val(v)) for k, v in inp.items()},
+                        inputs_b=None if inp_b is None else
+                        {k: ([val(x) for x in v] if isinstance(v, list) else val(v)) for k, v in inp_b.items()},
                         surfaces=[val(s) for s in surfaces], atmvol=val(atmvol), atmcon=val(atmcon),
                         pivot=[val(p) for p in pivot] if pivot else None,
                         shift=[val(p) for p in shift] if shift else None)
-            failures.append(dict(key='%s/%s' % (family, _slug(label)), what=what, replay=data))
+            failures.append(dict(key='%s/%s%s' % (family, variant + '/' if variant else '', _slug(label)), what=what, replay=data))
 
         # ---- code under test
         try:
             geo, _ = GB.build(M, family, inp, conv, atm if built_atm is None else built_atm, order, mesh)
             # a geometry created with one atmosphere type and switched to another afterwards
             if built_atm is not None: geo.atmosphere_type = atm
+            if rename: GB.rename_columns(geo, rename)
             blockmap = GB.make_blockmap(geo) if use_map else {}
-            mesh2, surf = GB.configure(geo, mesh, angle, atmvol, atmcon, surfaces, rot, pivot, shift)
-            grid = T.t2grid().fromgeo(geo, blockmap)
+            mesh2, surf = GB.configure(geo, mesh, angle, atmvol, atmcon, surfaces, rot, pivot, shift,
+                                       refresh=not raw_surface)
+            grid, mesh2, surf = GB.edit_and_convert(M, T, geo, blockmap, mesh2, surf, preconvert,
+                                                    GB.oracle_mesh(family, inp_b) if move else None, edits)
         except Exception as exn:
             if expect_oracle_error and 'DMPlex' in str(exn):
                 return 'documented: %s' % exn       # 10-node blocks have no DMPlex order
@@ -260,7 +304,7 @@ def task_fromgeo(family, shape, atm, conv, order, angle, use_map, surf_cols=None
         '' if surf_cols is None else '/surf:' + ','.join(map(str, surf_cols)),
         '/rot-%s' % rot if rot else '', '/translated' if translate else '',
         '' if family in ('rect', 'quadfam') else '/' + mixmode,
-        '' if built_atm is None else '/built-as-atm%d' % built_atm,
+        ('' if built_atm is None else '/built-as-atm%d' % built_atm) + ('/' + variant if variant else ''),
         '' if not fix else '/fix:' + ','.join('%d=%d' % kv for kv in sorted(fix.items())))
     return report.summarize(name, res, failures, samples, extra=dict(distinct_obligations=len(distinct)))
 
@@ -322,8 +366,47 @@ def catalogue(tier):
     add_split(1, 1, 2, family='mix5', shape=2, atm=1, conv=0, order=None, angle=0.0, use_map=True, surf_cols=[4], mixmode='stretch')
     add_split(1, 1, 2, family='triquad', shape=2, atm=0, conv=2, order='dmplex', angle=0.0, use_map=False, surf_cols=[2], mixmode='stretch')
     add(family='mix5', shape=2, atm=0, conv=0, order='dmplex', angle=0.0, use_map=False, surf_cols=[], mixmode='stretch')   # documented exception
+    # (5b) round 4: the geometry OBJECT reaches its final state by documented in-place operations
+    R = dict(family='rect', order=None, use_map=False)
+    #   converted, nodes moved (what optimize() does), converted again with the same t2grid object
+    add(shape=(2, 1, 2), atm=0, conv=0, angle=0.0, surf_cols=[0] if quick else None, preconvert=True, move=True, **R)
+    add(family='rect', shape=(1, 2, 2), atm=1, conv=2, order='layer_column', angle=30.0, use_map=True, surf_cols=[1], preconvert=True, move=True)
+    add(family='quadfam', shape=2, atm=2, conv=1, order=None, angle=0.0, use_map=False, surf_cols=[] if quick else [1], preconvert=True, move=True)
+    add(family='triquad', shape=2, atm=0, conv=3, order='dmplex', angle=0.0, use_map=True, surf_cols=[], mixmode='stretch', preconvert=True, move=True)
+    add(shape=(2, 1, 2), atm=1, conv=1, angle=0.0, surf_cols=[1], move=True, **R)                 # moved, converted once
+    #   split_column() (quadrilateral -> two triangles), with and without an earlier conversion
+    add(shape=(2, 1, 2), atm=0, conv=0, angle=0.0, surf_cols=[0], preconvert=True, edits=[('split_column', 0, 0)], **R)
+    add(family='rect', shape=(2, 1, 2), atm=1, conv=2, order='dmplex', angle=30.0, use_map=True, surf_cols=[1], edits=[('split_column', 1, 1)])
+    add(family='quadfam', shape=2, atm=2, conv=3, order='dmplex', angle=0.0, use_map=False, surf_cols=[], preconvert=True, edits=[('split_column', 0, 2)])
+    #   (2x2: the split column has a neighbour whose connection must move to the new triangle)
+    add(shape=(2, 2, 2), atm=0, conv=0, angle=0.0, surf_cols=[], preconvert=True, edits=[('split_column', 0, 0)], **R)
+    #   delete_column() / delete_layer() on an existing geometry
+    add(shape=(3, 1, 2), atm=0, conv=0, angle=0.0, surf_cols=[0], edits=[('delete_column', 2)], **R)
+    add(family='rect', shape=(2, 2, 2), atm=1, conv=1, order='layer_column', angle=0.0, use_map=True, surf_cols=[3], preconvert=True, edits=[('delete_column', 0)])
+    add(shape=(2, 1, 3), atm=0, conv=0, angle=0.0, surf_cols=[0], edits=[('delete_layer_bottom',)], **R)
+    add(shape=(2, 1, 3), atm=2, conv=2, angle=0.0, surf_cols=[], preconvert=True, edits=[('delete_layer_bottom',)], **R)
+    #   column surface assigned through the documented `surface` property only
+    for atm in ATMS:
+        add(shape=(2, 1, 2), atm=atm, conv=atm, angle=0.0, surf_cols=[0] if (quick or atm != 0) else None, raw_surface=True, **R)
+    #   columns renamed with rename_column(): third character a digit / numeric names
+    add(shape=(2, 1, 3), atm=0, conv=0, angle=0.0, surf_cols=[0], rename={0: 'ab1'}, **R)
+    add(family='rect', shape=(2, 1, 2), atm=1, conv=0, order='dmplex', angle=0.0, use_map=True, surf_cols=[1], rename={0: ' 12', 1: '  7'})
+    add(shape=(2, 1, 2), atm=0, conv=3, angle=0.0, surf_cols=[0], rename={0: 'ab1'}, **R)
+    add(shape=(2, 1, 2), atm=2, conv=2, angle=0.0, surf_cols=[0], rename={0: ' 12', 1: '  7'}, **R)
+    add(shape=(2, 1, 2), atm=1, conv=1, angle=0.0, surf_cols=[0], rename={0: 'a1', 1: ' 7'}, **R)
     if quick: return T
     # ---- thorough only
+    # (5c) round 4, more freedom
+    add(family='mix5', shape=2, atm=1, conv=0, order=None, angle=0.0, use_map=True, surf_cols=[], mixmode='stretch', preconvert=True, move=True)
+    add_split(1, 1, 2, shape=(2, 2, 2), atm=1, conv=1, angle=30.0, surf_cols=[0], preconvert=True, move=True, **R)
+    add_split(1, 1, 2, shape=(2, 2, 2), atm=0, conv=0, angle=0.0, surf_cols=[0], preconvert=True, edits=[('split_column', 0, 0)], **R)
+    add_split(1, 1, 2, shape=(2, 2, 2), atm=2, conv=2, angle=0.0, surf_cols=[1], edits=[('split_column', 3, 1)], **R)
+    add(shape=(2, 2, 2), atm=1, conv=3, angle=90.0, surf_cols=[], preconvert=True, edits=[('split_column', 1, 3), ('split_column', 2, 0)], **R)
+    add(family='triquad', shape=2, atm=0, conv=0, order='dmplex', angle=0.0, use_map=False, surf_cols=[3], mixmode='stretch', edits=[('delete_column', 2)])
+    add(shape=(2, 2, 3), atm=1, conv=0, angle=0.0, surf_cols=[0, 3], edits=[('delete_column', 1), ('delete_layer_bottom',)], **R)
+    add(shape=(2, 2, 2), atm=0, conv=0, angle=0.0, surf_cols=[0, 3], raw_surface=True, **R)
+    add(family='quadfam', shape=2, atm=1, conv=2, order='dmplex', angle=0.0, use_map=True, raw_surface=True)
+    add(family='rect', shape=(2, 2, 2), atm=0, conv=0, order='dmplex', angle=30.0, use_map=True, surf_cols=[0, 3], rename={0: '  1', 1: ' a1', 3: '123'})
     # (6) RECT(3x2x3): pairs / a triple of free surfaces (7 classes each), the other columns at the default surface
     for atm, pair in ((0, [0, 1]), (1, [1, 4]), (2, [0, 4]), (1, [2, 5])):
         add_split(1, 2, 3, family='rect', shape=(3, 2, 3), atm=atm, conv=atm, order=ORDERS[atm], angle=ANGLES[atm],
@@ -375,6 +458,12 @@ def run(tier, seed, rep):
         'symbolic stretch sx, sy' + ('' if quick else '; in mode full also symbolic shear k in (-1,1) and vertex slide t in (-1/2,1/2)') +
         '), TRIQUAD (MIX5 without the pentagon, for the dmplex order); 2 layers' + ('' if quick else ' (one MIX5 and one QUADFAM task with 3)') +
         '; one free surface' + ('' if quick else ' or a pair of free surfaces'),
+        'round 4 - geometry objects that reach their final state by in-place operations (small shapes: RECT 2x1x2, 1x2x2, 3x1x2, '
+        '2x2x2, 2x1x3, QUADFAM, TRIQUAD' + ('' if quick else ', MIX5, 2x2x3') + '; one' + ('' if quick else ' or two') + ' free surface(s)): '
+        'fromgeo -> every node moved to a second symbolic position set (+ centre = centroid, get_area(), as optimize() does) -> '
+        'fromgeo again into the same t2grid object; split_column() with and without an earlier conversion; delete_column(); '
+        'delete_layer() of the bottom layer; surfaces assigned through column.surface only; rename_column() to names whose third '
+        'character is a digit / numeric names (conventions 0..3)',
     ]
     if not quick:
         rep.bounds += ['RECT(3x2x3): pairs of free surfaces [0,1] (atm 0), [1,4] and [2,5] (atm 1), [0,4] (atm 2) (49 arrangements each), '
@@ -390,7 +479,12 @@ def run(tier, seed, rep):
     rep.assumptions += [
         'the bottom layer of every column is non-empty: surface > bottom of the lowest layer',
         'surfaces are installed the way the library does it: col.surface = s; set_column_num_layers(col); '
-        'setup_block_name_index(); setup_block_connection_name_index()',
+        'setup_block_name_index(); setup_block_connection_name_index() - except in the "surface-assigned-no-refresh" tasks, '
+        'where only the documented property is assigned (no documented method refreshes the name lists)',
+        'node moves are followed by col.centre = col.centroid; col.get_area() for every column (the closing steps of mulgrid.optimize()); '
+        'hand-moved nodes without that are outside the claim',
+        'split_column(): the named column keeps the triangle (node, next, opposite) in anticlockwise order, the new column is appended '
+        'last with (opposite, previous, node) - the documented direction of the split, the assignment of names is as implemented',
         'irregular geometries are assembled like mulgrid.from_gmsh(): add_node, add_column(column(..)), add_connection for every '
         'pair of columns sharing an edge (in sorted order), add_layers, set_default_surface, identify_neighbours, index set-up',
         'math.cos / math.sin of the rotation angle are replaced by the exact rational pair on the unit circle (so that a rotation '
